@@ -4,7 +4,7 @@ From Coq Require Import String List Arith Bool ZArith Lia Permutation Sorted.
 Import ListNotations.
 Require Import MV.Lib.Base MV.C03.Gen MV.C03.Model MV.C03.Run MV.C03.Proofs_Base MV.C03.Proofs_Simplex
         MV.C03.Proofs_Incidence MV.C03.Proofs_Complete MV.C03.Proofs_Incidence2 MV.C03.Proofs_Border
-        MV.C03.Proofs_Orient MV.C03.Proofs_Maps MV.C03.Proofs_Ring MV.C03.Proofs_Closed MV.C03.Proofs_Sort MV.C03.Proofs_Cover MV.C03.Proofs_EdgeMap MV.C03.Proofs_Surface.
+        MV.C03.Proofs_Orient MV.C03.Proofs_Maps MV.C03.Proofs_Ring MV.C03.Proofs_Closed MV.C03.Proofs_Sort MV.C03.Proofs_Cover MV.C03.Proofs_EdgeMap MV.C03.Proofs_Surface MV.C03.Proofs_FaceSort MV.C03.Proofs_FaceRing.
 Local Open Scope nat_scope.
 
 (* a volume as handed to the constructor: cells, plus the faces and edges declared beforehand (a .mesh file with boundary
@@ -228,13 +228,17 @@ Section Main.
       sorted_edge cells (faces_of M) (edges_of M) (t_f2c (tables M))
                   (nth e (t_e2c (tables M)) []) (nth e (t_e2f (tables M)) []) e start = Ok (b, cs, fs)
       /\ Permutation cs (nth e (t_e2c (tables M)) []) /\ Permutation fs (nth e (t_e2f (tables M)) [])
-      /\ (b = true -> NoDup cs /\ Sorted (adjacent_around cells (faces_of M) A B) cs /\ In start cs)
+      /\ (b = true -> NoDup cs /\ Sorted (adjacent_around cells (faces_of M) A B) cs /\ In start cs
+                      /\ NoDup fs /\ Sorted (face_adj cells (faces_of M)) fs)
       /\ (conforming cells -> link_connected cells (faces_of M) A B (nth e (t_e2c (tables M)) []) -> b = true).
   Proof.
     intros L Hs. cbn [tables build t_f2c t_e2c t_e2f] in *.
     destruct (edge_ring_sorted cells (faces_of M) (edges_of M) H Hf He e start L Hs)
       as [A [B [b [cs [fs [EE [SE [P1 [P2 SO]]]]]]]]].
-    exists A, B, b, cs, fs. repeat (split; [assumption|]).
+    exists A, B, b, cs, fs. split; [assumption|]. split; [assumption|]. split; [assumption|]. split; [assumption|].
+    split.
+    { intros Hb. destruct (SO Hb) as [X1 [X2 X3]]. split; [assumption|]. split; [assumption|]. split; [assumption|].
+      apply (edge_ring_faces cells (faces_of M) (edges_of M) H Hf He e start b cs fs L Hs SE Hb). }
     intros Cf LC.
     apply (edge_ring_covered cells (faces_of M) (edges_of M) H Hf He Cf Hmin e start A B L Hs EE LC b cs fs SE).
   Qed.
